@@ -17,7 +17,7 @@ pub fn def() -> PropDef {
         nontrivial,
         rule: "0-4 timers of mixed kinds (interval, interval_with, delayed_send, delayed_exec) per actor, registered in started and in handlers, periods and delays 1..10000 virtual ticks, both mailbox kinds, termination at a random virtual time by every cause (incl. last handle dropped, panic, cancellation) or none, ideal and racing clock (timer expiry racing with runnable tasks); x seeded schedules; spacing measured at the submission instant; non-trivial = two or more ticks of one interval were observed, or the actor terminated with a timer pending; distinct = distinct order of client-op, callback and timer-submission events",
         needed_probes: &["c10_spacing_checked", "c10_exact_schedule_checked", "c10_oneshot_checked", "c10_died_with_pending_timer", "timer_fired_while_runnable", "c10_last_drop_with_timer"],
-        quick_runs: 100_000,
+        quick_runs: 200_000,
         thorough_runs: 2_000_000,
         block: 1,
         flavours: &["tokio"],
